@@ -7,8 +7,11 @@ subsequence; the model's strip IS re.sub of the source's ANSI_ESCAPE_PATTERN).
 tie: Gen_Chunking.v regenerated from the source on every run + correspondence `chan-chunking`: the REAL
 sync and asyncio channels over a causal device under whole / 1-byte / every single cut / (thorough) every
 pair of cuts / random cuts, CR and every sequence family inserted at every character boundary, strict
-and rough, get_prompt / send_input / send_inputs_interact / in-channel telnet + ssh login, and the
-model (vm_compute) on the same schedules.  oracle: results, write logs and completion equal across
+and rough, get_prompt / send_input / send_inputs_interact / in-channel telnet + ssh login — devices with
+one-line AND two-line prompts (junos "{master:0}" / "{backup:1}" / "{master}[edit]" line + a prompt pattern
+spanning both lines) in every operation kind, logins with a rejected password / passphrase where the ssh
+client's message and the re-asked prompt are one device answer — and the model (vm_compute) on the same
+schedules.  oracle: results, write logs and completion equal across
 segmentations and decorations of one causal stream (independent of the model)."""
 import ast
 import copy
@@ -26,6 +29,11 @@ SOURCES = ["scrapli/channel/sync_channel.py", "scrapli/channel/async_channel.py"
 
 PROMPT = r"^[a-z0-9.\-@()/:]{1,32}[#>$]$"
 PROMPT_SP = r"^[a-z0-9.\-@()/:]{1,48}[#>$]\s?$"
+# two-line prompts: the junos privilege-level patterns (optional "{master:0}" / "{master:0}[edit]" line in front of user@host> / #)
+JUNOS_EXEC = r"^({\w+(:(\w+){0,1}\d){0,1}}\n){0,1}[\w\-@()/:\.]{1,63}>\s?$"
+JUNOS_ANY = r"^({\w+(:(\w+){0,1}\d){0,1}}(\[edit\]){0,1}\n){0,1}[\w\-@()/:\.]{1,63}[>#]\s?$"
+JUNOS_CONF = r"^({\w+(:(\w+){0,1}\d){0,1}}\[edit\]\n){0,1}[\w\-@()/:\.]{1,63}#\s?$"
+DENIED = "Permission denied, please try again."
 OUTS = [b"", b"out", b"line one\nline  two   \n\nlast line",
         b"Building configuration...\n\nCurrent configuration : 87 bytes\n!\nhostname router1\n!\nend",
         b"Interface   IP-Address   OK? Method Status\nGi1         10.0.0.1     YES NVRAM  up",
@@ -35,6 +43,14 @@ OUTS = [b"", b"out", b"line one\nline  two   \n\nlast line",
 # ------------------------------------------------------------------------------------------------
 # scenarios
 # ------------------------------------------------------------------------------------------------
+# round 4: scenarios that are also run decorated (two-line prompt devices of every operation kind, a rejected ssh password)
+TWO_LINE_DECO = ("junos2-get_prompt", "junos2-send_input", "junos2-interact", "ssh-rejected-password")
+
+
+ROUND4 = ("junos2-get_prompt", "junos2-send_input", "junos2-send_input-rough", "junos2-edit", "junos2-interact", "junos2-interact-complete",
+          "ssh-rejected-password", "ssh-rejected-passphrase", "ssh-key-ignored-then-password")
+
+
 def cli(name, ops, platform="cisco_iosxe", outputs=None, rough=False, pattern=PROMPT, secret=None, mode=None,
         host="router1", banner="", user="admin", ret="\n", depth=1000, nl="0d0a"):
     dv = {"type": "cli", "platform": platform, "host": host, "outputs": {k: v.hex() for k, v in (outputs or {}).items()},
@@ -89,6 +105,19 @@ def base_scenarios(rng, thorough):
                  pattern=PROMPT_SP, host="switch1", outputs={"show version": OUTS[1], "show clock": OUTS[2]}))
     S.append(cli("junos-banner", [si("show version"), {"op": "get_prompt"}], platform="juniper_junos", pattern=r"^[a-z0-9.\-@()/:]{1,48}[#>$%]\s?$",
                  host="vmx1", user="boxen", banner="{master}", outputs={"show version": b"Hostname: vmx1\nModel: vmx"}))
+    # devices whose prompt is TWO lines and a prompt pattern that spans both (a read boundary can fall between them)
+    jn = dict(platform="juniper_junos", host="vsrx1", user="boxen")
+    S.append(cli("junos2-get_prompt", [{"op": "get_prompt"}], pattern=JUNOS_EXEC, banner="{master:0}", **jn))
+    S.append(cli("junos2-send_input", [si("show version"), {"op": "get_prompt"}, si("show system uptime", strip=False)], pattern=JUNOS_EXEC,
+                 banner="{backup:1}", outputs={"show version": b"Hostname: vsrx1\nModel: vsrx", "show system uptime": b"up 3 days"}, **jn))
+    S.append(cli("junos2-send_input-rough", [si("show version"), {"op": "get_prompt"}], pattern=JUNOS_EXEC, banner="{master:0}", rough=True,
+                 outputs={"show version": b"Hostname: vsrx1\nModel: vsrx"}, **jn))
+    S.append(cli("junos2-edit", [{"op": "get_prompt"}, si("show | compare"), {"op": "get_prompt"}], pattern=JUNOS_ANY,
+                 banner="{master}", mode="configuration", outputs={"show | compare": b"[edit system]\n-  host-name vsrx1;\n+  host-name x;"}, **jn))
+    S.append(cli("junos2-interact", [{"op": "interact", "events": [["configure", "", False], ["exit", "", False]]}, {"op": "get_prompt"}],
+                 pattern=JUNOS_ANY, banner="{master:0}", **jn))
+    S.append(cli("junos2-interact-complete", [{"op": "interact", "events": [["configure", "Password:", False], ["s3cret", "", True]],
+                                               "complete": [JUNOS_CONF]}, {"op": "get_prompt"}], pattern=JUNOS_ANY, banner="{master}", **jn))
     S.append(cli("crlf-return", [si("show a"), {"op": "get_prompt"}], ret="\r\n", outputs={"show a": OUTS[1]}))
     S.append(cli("small-window", [si("show run")], depth=40, outputs={"show run": OUTS[3]}))
     S.append(cli("blocks-no-prompt", [si("show a")], pattern=r"^[a-z0-9]{1,32}>$", outputs={"show a": OUTS[1]}))
@@ -102,6 +131,16 @@ def base_scenarios(rng, thorough):
     S.append(login("ssh-password", "ssh", {"op": "auth_ssh", "password": "pw1", "passphrase": ""}, motd=b"Last login: Mon Jan  1 00:00:00 2024 from 10.0.0.9\r\n"))
     S.append(login("ssh-passphrase", "ssh", {"op": "auth_ssh", "password": "pw1", "passphrase": "kp"}, ask_passphrase=True, passphrase="kp"))
     S.append(login("ssh-wrong-password", "ssh", {"op": "auth_ssh", "password": "bad", "passphrase": ""}))
+    S[-1]["expect"] = ["raised:ScrapliAuthenticationFailed"]
+    # a rejected credential: the ssh client's message and the re-asked prompt are ONE answer of the device — whether they arrive in
+    # one read is the segmentation's choice (whole: together; a cut in between / 1-byte reads: the message first)
+    S.append(login("ssh-rejected-password", "ssh", {"op": "auth_ssh", "password": "bad", "passphrase": ""}, deny_text=DENIED, quiet=True))
+    S[-1]["expect"] = ["raised:ScrapliAuthenticationFailed"]
+    S.append(login("ssh-rejected-passphrase", "ssh", {"op": "auth_ssh", "password": "pw1", "passphrase": "bad"}, ask_passphrase=True,
+                   passphrase="kp", deny_text=DENIED))
+    S[-1]["expect"] = ["raised:ScrapliAuthenticationFailed"]
+    S.append(login("ssh-key-ignored-then-password", "ssh", {"op": "auth_ssh", "password": "pw1", "passphrase": ""},
+                   quiet=True, preamble="@@@@@@@@@@@@\n@ WARNING: UNPROTECTED PRIVATE KEY FILE! @\n@@@@@@@@@@@@\nThis private key will be ignored.\n"))
     S[-1]["expect"] = ["raised:ScrapliAuthenticationFailed"]
     S.append(login("ssh-denied", "ssh", {"op": "auth_ssh", "password": "bad", "passphrase": ""}, deny_after=1))
     S[-1]["expect"] = None   # before fix ad58f65 the asyncio loop did not read the 'permission denied' text (C06 / C09)
@@ -303,7 +342,7 @@ def hexify(x):
     return x
 
 
-def explore(rep, model, scn, thorough, stats, viol, label="base", base_canon=None, pols=None, model_quota=None):
+def explore(rep, model, scn, thorough, stats, viol, label="base", base_canon=None, pols=None, model_quota=None, cut_sample=None):
     """runs scn on both stacks under the policies; oracle = canonical observation equal to the base one.
     returns {stack: canon of the whole-read run}"""
     from . import c02_lib as L
@@ -334,7 +373,7 @@ def explore(rep, model, scn, thorough, stats, viol, label="base", base_canon=Non
                 viol.append({"scenario": scn, "stack": stack, "policy": list(pol), "label": label,
                              "got": hexify(c), "want": hexify(ref)})
             take = model_quota is None or model_quota.get(stack, 0) > 0
-            psample = 1.0 if pol[0] != "cuts" else (stats["cut_sample"] if len(pol[1]) == 1 else stats["pair_sample"] if len(pol[1]) == 2 else 1.0)
+            psample = 1.0 if pol[0] != "cuts" else ((cut_sample or stats["cut_sample"]) if len(pol[1]) == 1 else stats["pair_sample"] if len(pol[1]) == 2 else 1.0)
             if take and rng.random() < psample:
                 ok = model.add(scn, stack, pol, ob, {"scenario": scn, "stack": stack, "policy": list(pol), "label": label})
                 if not ok and ("model-inexpressible:" + scn["name"]) not in stats["inexpr"]:
@@ -567,7 +606,10 @@ def run(rep):
             twin["cfg"]["rough"] = False
             ref = {stack: L.canon(L.run_scenario(twin, stack, ("whole",))) for stack in ("sync", "async")}
             strict_twin[scn["name"]] = twin
-        got = explore(rep, model, scn, thorough, stats, viol, pols=pols, base_canon=ref)
+        # the oracle sees EVERY single cut on the real channels; the model is run on a sample of them (a thinner one for the round-4
+        # scenarios in the quick tier: their login / multi-op runs are the most expensive model cases)
+        thin = 0.15 if (not thorough and scn["name"] in ROUND4) else None
+        got = explore(rep, model, scn, thorough, stats, viol, pols=pols, base_canon=ref, cut_sample=thin)
         base[scn["name"]] = ref or got
     rep.sample({"scenario": scenarios[1]["name"], "ops": scenarios[1]["ops"], "policies": "whole, 1-/2-/7-byte reads, every single cut, random cuts"})
     try:    # two illustrative samples for the evidence file; on a broken tree an operation may not complete — never fatal
@@ -582,7 +624,7 @@ def run(rep):
     # decorations: CR and every sequence family at every character boundary of the (undecorated) stream
     deco_scn = [s for s in scenarios if s["name"] in (
         "get_prompt", "send_input-strict", "send_input-rough", "history", "interact-enable", "telnet-login", "ssh-password",
-        "nxos-trailing-blank", "send_input-upper-strict")]
+        "nxos-trailing-blank", "send_input-upper-strict") + TWO_LINE_DECO]
     fams = list(L.FAMILIES.items())
     for scn in deco_scn:
         ob = L.run_scenario(scn, "sync", ("whole",))
@@ -593,7 +635,7 @@ def run(rep):
             stats["families"][fam] = stats["families"].get(fam, 0) + 1
             positions = list(range(0, nplain + 1))
             if not thorough and scn["name"] not in ("send_input-strict", "get_prompt"):
-                positions = sorted(rng.sample(positions, min(len(positions), 12)))
+                positions = sorted(rng.sample(positions, min(len(positions), 8 if scn["name"] in TWO_LINE_DECO else 12)))
             for k in positions:
                 d = decorate(scn, [k], seq)
 
@@ -660,8 +702,14 @@ def run(rep):
 
     # 4. the model on the collected runs
     bad, log = ([], "")
+    # login runs cost the model ~100x a get_prompt run and sit next to each other: deal the cases round-robin over the shards
+    # (terms and their meta together) so that the parallel shards finish at about the same time
+    shard = min(400, max(150, -(-len(model.terms) // common.JOBS)))     # quick tier: one wave of shards; bounded (memory of one coqc)
+    nsh = max(1, -(-len(model.terms) // shard))
+    order = sorted(range(len(model.terms)), key=lambda i: (i % nsh, i))
+    model.terms, model.meta = [model.terms[i] for i in order], [model.meta[i] for i in order]
     if gen_ok and ok:
-        bad, log = common.eval_cases(rep.workdir, "cases_c02", model.header(), model.terms, "chk", shard=150, timeout=800)
+        bad, log = common.eval_cases(rep.workdir, "cases_c02", model.header(), model.terms, "chk", shard=shard, timeout=800)
     stats["model_cases"] = len(model.terms)
     ubad = None
     if gen_ok and ok:
@@ -705,7 +753,7 @@ def run(rep):
     untidy = None
     if gen_ok and ok:
         singles = [t for t, m in zip(model.terms, model.meta) if len(m["scenario"]["ops"]) == 1 and m["policy"] == ["whole"] and m["label"] == "base"]
-        u, _ = common.eval_cases(rep.workdir, "tidy_c02", model.header(), singles, "tidy_of", shard=150)
+        u, _ = common.eval_cases(rep.workdir, "tidy_c02", model.header(), singles, "tidy_of", shard=4)
         untidy = None if u is None else len(u)
         stats["single_op_whole_runs"] = len(singles)
         stats["of_which_not_tidy"] = untidy
@@ -722,7 +770,9 @@ def run(rep):
         "oracle_failures": len(viol), "tidy": {k: stats[k] for k in ("single_op_whole_runs", "of_which_not_tidy") if k in stats}}
     rep.coverage["generated_from"] = common.source_hashes(SOURCES)
     rep.coverage["generated"] = info
-    rep.rule = ("scenario = causal device (CLI of 4 vendors' prompt shapes, telnet / ssh login front ends) + operation history "
+    rep.rule = ("scenario = causal device (CLI of 4 vendors' prompt shapes incl. two-line junos prompts matched by a two-line pattern, "
+                "telnet / ssh login front ends incl. rejected credentials = client message + re-asked prompt in one answer, client warning "
+                "in front of the first prompt) + operation history "
                 "(get_prompt, send_input strict/rough/eager/eager_input, send_inputs_interact, in-channel logins) + decoration "
                 "(CR and each of %d sequence families at every character boundary; several at once; rough-mode extras) + segmentation "
                 "(whole, 1-/2-/7-byte reads, every single cut, %srandom cuts; cuts inside inserted sequences); both stacks; "
@@ -831,7 +881,10 @@ MANIFEST = {
             "returns the same buffer under all segmentations when its test does not hold at a proper prefix of the stream; echo tests are monotone so "
             "completion never depends on chunking; whole operations (get_prompt, send_input, send_inputs_interact, in-channel logins as programs) "
             "against ANY causal device give the same results, write log and completion for ALL read schedules under the computed side condition "
-            "`tidy`; rough matching = subsequence (iff) and monotone. Refuted with witnesses: the unconditional statements (8-bit 0x9B/0x9D "
+            "`tidy`; the prompt pattern is an arbitrary compiled regex searched in the WHOLE accumulated buffer, so prompts spanning two lines "
+            "(junos `{master:0}\\nuser@host>`) are covered by the same theorems, and the ssh login program looks for the client's error texts "
+            "BEFORE the credential prompts of the same buffer (a message followed by a re-asked prompt fails the login under every "
+            "segmentation); rough matching = subsequence (iff) and monotone. Refuted with witnesses: the unconditional statements (8-bit 0x9B/0x9D "
             "prefixes; sequences longer than the 64-byte hold-back; a prompt-like line prefix at a read boundary) and the superseded code (per-chunk "
             "stripping, leftmost hold-back, `output in input_`). A prompt's optional trailing blank (`#\\s?$`) can stay unread under some chunkings: "
             "only surrounding white space of raw_result may differ, which the oracle tolerates. Tie: Gen_Chunking.v + correspondence of the model with "
@@ -842,6 +895,9 @@ MANIFEST = {
             "Section variables: the device (state type D, feed) in exec theorems. Not modelled: timeouts, the time-driven return of the telnet login "
             "loop (disabled by a large timeout_ops), _read_until_prompt_or_time, channel logging. Known findings: prompt-like line prefix at a read "
             "boundary; 0x9B/0x9D sequences; sequences with more than 64 parameter bytes cut beyond the bound; 'login:' at a line end inside a MOTD. "
+            "Two-line prompts and rejected-credential logins (round 4) are inside the model: the junos privilege patterns go through the "
+            "regex translator unchanged and p_get_prompt / p_send_input / p_interact / p_auth are run on the same schedules (no oracle-only "
+            "scenarios); the order 'messages, then prompts' of p_auth is tied to the source by that correspondence only (not by the translator). "
             "Rough mode: extras must precede the last echoed character (what a device prints after it cannot be told from command output); the "
             "absolute part of the oracle is only the expected completion kind and 'rough with an exact echo = strict' (exact results are C01's).",
     "technique": "Coq proof by induction over chunk lists / read schedules with 'first prefix of the stream satisfying Q' as canonical form, a one-pass "
